@@ -74,6 +74,23 @@ def newHostRule (ext : Ext) (dn : Bytes → Bool) (text : Bytes) (listID : Int) 
           | .error err => .error err
           | .ok names => .ok { text := text, listID := listID, hostnames := names, ip := a }
 
+/-- The comment strip of the PINNED tree (defect D11): `ruleText[0 : commentIndex-1]` also drops the
+    byte before the '#'.  Kept only as the negation witness of Props/C18. -/
+def stripHostCommentOld (text : Bytes) : Except HErr Bytes :=
+  match indexByte text (ch '#') with
+  | some i => if i > 0 then sliceE text 0 (i - 1) else .ok text
+  | none => .ok text
+
+/-- `NewHostRule` of the pinned tree (the stripped text contains no '#', so the current parser
+    applied to it does what the old one did after its strip). -/
+def newHostRuleOld (ext : Ext) (dn : Bytes → Bool) (text : Bytes) (listID : Int) : Except HErr HostRule :=
+  match stripHostCommentOld text with
+  | .error err => .error err
+  | .ok body =>
+    match newHostRule ext dn body listID with
+    | .error err => .error err
+    | .ok r => .ok { r with text := text }
+
 /-- `HostRule.Match` (the single-name fast path, then the loop). -/
 def hostRuleMatches (r : HostRule) (hostname : Bytes) : Bool :=
   (r.hostnames.length == 1 && r.hostnames.head? == some hostname) ||
